@@ -72,6 +72,14 @@ Proof.
     apply bind_ok in H; destruct H as ([x b2] & E & H); inv_ok H; eapply take_adv; eassumption.
 Qed.
 
+Lemma dec_tag_int_adv : forall b i b', dec_tag_int b = Ok (i, b') -> adv 1 b' b.
+Proof.
+  intros b i b' H. unfold dec_tag_int in H. destruct b as [| bd b1]; [discriminate |].
+  destruct (bd / 32 <=? majNegInt); [| discriminate].
+  apply bind_ok in H. destruct H as ([u b2] & E & H). apply read_uint_adv in E.
+  apply bind_ok in H. destruct H as (j & _ & H). inv_ok H. chain.
+Qed.
+
 Lemma dec_chunks_adv : forall f mt b s b', dec_chunks f mt b = Ok (s, b') -> adv 1 b' b.
 Proof.
   induction f; intros mt b s b' H; [discriminate |].
@@ -112,7 +120,9 @@ Proof.
   - apply bind_ok in H. destruct H as ([y b2] & E & H). inv_ok H. apply take_adv in E. chain.
   - apply bind_ok in H. destruct H as ([y b2] & E & H). inv_ok H. apply take_adv in E. chain.
   - apply bind_ok in H. destruct H as ([u b2] & E & H). apply read_uint_adv in E.
-    apply bind_ok in H. destruct H as (i & _ & H). inv_ok H. chain.
+    destruct (bd / 32 =? majNegInt).
+    + apply bind_ok in H. destruct H as (i & _ & H). inv_ok H. chain.
+    + inv_ok H. chain.
 Qed.
 
 Lemma dec_bytes_fresh_adv : forall D f b s b', dec_bytes_fresh D f b = Ok (s, b') -> adv 1 b' b.
@@ -144,7 +154,7 @@ Ltac split_pair a :=
 
 Ltac learn_prim E :=
   first [ apply take_adv in E | apply rskip_adv in E | apply read_uint_adv in E | apply dec_len_adv in E
-        | apply uint_bytes_adv in E | apply dec_str_body_adv in E | apply dec_float64_adv in E
+        | apply uint_bytes_adv in E | apply dec_tag_int_adv in E | apply dec_str_body_adv in E | apply dec_float64_adv in E
         | apply dec_bytes_fresh_adv in E | apply skip_chunks_adv in E | apply dec_chunks_adv in E | idtac ].
 
 Ltac brk_ok H :=
@@ -307,7 +317,7 @@ Proof.
     apply bind_oof in H; destruct H as [H | ([x b2] & E & H)]; try discriminate; eapply take_noof; eassumption.
 Qed.
 Lemma int64v_noof : forall u neg, int64v u neg = OutOfFuel -> False.
-Proof. intros u neg H. unfold int64v in H. match type of H with (if ?c then _ else _) = _ => destruct c end; discriminate. Qed.
+Proof. intros u neg H. unfold int64v in H. repeat match type of H with (if ?c then _ else _) = _ => destruct c end; discriminate. Qed.
 Lemma time_of_unix_noof : forall s n, time_of_unix s n = OutOfFuel -> False.
 Proof.
   intros s n H. unfold time_of_unix in H.
@@ -318,6 +328,14 @@ Lemma time_of_float_noof : forall x, time_of_float x = OutOfFuel -> False.
 Proof. intros x H. unfold time_of_float in H. destruct (f64_exp x =? 2047); [discriminate | eapply time_of_unix_noof; eassumption]. Qed.
 Lemma parse_rfc3339_noof : forall s, parse_rfc3339 s = OutOfFuel -> False.
 Proof. intros s H. unfold parse_rfc3339 in H. destruct (parse_core s) as [[sec ns] |]; [eapply time_of_unix_noof; eassumption | discriminate]. Qed.
+
+Lemma dec_tag_int_noof : forall b, dec_tag_int b = OutOfFuel -> False.
+Proof.
+  intros b H. unfold dec_tag_int in H. destruct b as [| bd b1]; [discriminate |].
+  destruct (bd / 32 <=? majNegInt); [| discriminate].
+  apply bind_oof in H. destruct H as [H | ([u b2] & E & H)]; [eapply read_uint_noof; eassumption |].
+  apply bind_oof in H. destruct H as [H | (j & E2 & H)]; [eapply int64v_noof; eassumption | discriminate].
+Qed.
 
 Ltac lens :=
   repeat match goal with H : adv _ _ _ |- _ => apply adv_len in H end; cbn [length] in *; lia.
@@ -359,6 +377,7 @@ Proof.
     + apply bind_oof in H. destruct H as [H | ([y b2] & E & H)]; [eapply take_noof; eassumption | discriminate].
     + apply bind_oof in H. destruct H as [H | ([y b2] & E & H)]; [eapply take_noof; eassumption | discriminate].
     + apply bind_oof in H. destruct H as [H | ([u b2] & E & H)]; [eapply read_uint_noof; eassumption |].
+      destruct (bd / 32 =? majNegInt); [| discriminate].
       apply bind_oof in H. destruct H as [H | (i & E2 & H)]; [eapply int64v_noof; eassumption | discriminate].
 Qed.
 
@@ -410,6 +429,7 @@ Ltac fin_prim :=
   | H : dec_len _ _ = OutOfFuel |- _ => exfalso; eapply dec_len_noof; exact H
   | H : uint_bytes _ _ = OutOfFuel |- _ => exfalso; eapply uint_bytes_noof; exact H
   | H : int64v _ _ = OutOfFuel |- _ => exfalso; eapply int64v_noof; exact H
+  | H : dec_tag_int _ = OutOfFuel |- _ => exfalso; eapply dec_tag_int_noof; exact H
   | H : parse_rfc3339 _ = OutOfFuel |- _ => exfalso; eapply parse_rfc3339_noof; exact H
   | H : time_of_float _ = OutOfFuel |- _ => exfalso; eapply time_of_float_noof; exact H
   | H : dec_str_body _ _ _ = OutOfFuel |- _ => exfalso; eapply dec_str_body_noof; [| exact H]; lens
